@@ -219,12 +219,12 @@ Section De.
   Lemma dfail_inv n : inv n (dfail n).
   Proof. simpl. split; [|split]; auto using evs_in_nil. Qed.
 
-  Lemma dispatch_inv tg wf vs (fd: nat -> D) :
-    (forall v n, inv n (fd v n)) -> forall n, inv n (dispatch E tg wf vs fd n).
+  Lemma dispatch_inv tg wf tgr vs (fd: nat -> D) :
+    (forall v n, inv n (fd v n)) -> forall n, inv n (dispatch E tg wf tgr vs fd n).
   Proof.
     intros Hfd n. unfold dispatch. destruct wf.
     - destruct tg as [[t|]|]; try apply dfail_inv.
-      destruct (lookup_tag E vs t); [apply Hfd|apply dfail_inv].
+      destruct (lookup_tag E tgr vs t); [apply Hfd|apply dfail_inv].
     - apply dtry_inv. apply Forall_forall. intros d Hd.
       apply in_map_iff in Hd as [v [Hd _]]. subst d. intros n0. apply Hfd.
   Qed.
